@@ -1,5 +1,7 @@
 import TangeloModel.Measure
 import TangeloProofs.CycRing
+import TangeloProofs.CycLaws
+import TangeloProofs.Lemmas.Adjoint
 import Mathlib.Tactic.Ring
 import Mathlib.Tactic.LinearCombination
 import Mathlib.Tactic.NormNum
@@ -97,6 +99,113 @@ theorem expectFromProbs_is_parity_sum (n : Nat) (a : SV) (w : PWord) :
 /-- every row of the measurement-basis table regenerated from `measurement_basis_gates` satisfies
     B†·Z·B = letter, exactly (kernel computation in ℚ(ζ₁₆)); X and Y are both covered -/
 theorem meas_basis_table_correct : measBasisOk = true := by decide +kernel
+
+/-! ## the two evaluation routes agree for every state and every register size -/
+section routes
+open Finset
+variable {S : Type} [CommRing S] [StarRing S]
+
+/-- e(π/2) = (1+i)/√2 -/
+def HalfPi (k : Consts S) : Prop := k.e (Ang.piQuarter 2) = (1 + k.i) * k.rsqrt2
+
+theorem e_neg_half_pi (k : Consts S) (L : k.Laws) (hp : HalfPi k) : k.e (-Ang.piQuarter 2) = (1 - k.i) * k.rsqrt2 := by
+  have h := L.e_neg_mul (Ang.piQuarter 2)
+  rw [hp] at h
+  have hr := L.rsqrt2_sq
+  have hi := L.i_sq
+  linear_combination ((1 - k.i) * k.rsqrt2) * h - k.e (-Ang.piQuarter 2) * hr
+    + (k.e (-Ang.piQuarter 2) * (k.rsqrt2 * k.rsqrt2)) * hi
+
+theorem cos_half_pi (k : Consts S) (L : k.Laws) (hp : HalfPi k) : k.cosH (Ang.piQuarter 2) = k.rsqrt2 := by
+  have hn := e_neg_half_pi k L hp
+  unfold HalfPi at hp
+  simp only [Consts.cosH]
+  linear_combination k.half * hp + k.half * hn + k.rsqrt2 * L.two_half
+
+theorem misin_half_pi (k : Consts S) (L : k.Laws) (hp : HalfPi k) : k.misinH (Ang.piQuarter 2) = -(k.i * k.rsqrt2) := by
+  have hn := e_neg_half_pi k L hp
+  unfold HalfPi at hp
+  simp only [Consts.misinH]
+  linear_combination k.half * hn - k.half * hp - (k.i * k.rsqrt2) * L.two_half
+
+theorem neg_quarter : Ang.piQuarter (-2) = -Ang.piQuarter 2 := by
+  apply Ang.ext' <;> simp [Ang.neg_def, Ang.neg, Ang.piQuarter]
+
+/-- RY(−π/2) and RX(π/2) as explicit matrices -/
+theorem ry_minus_half_pi (k : Consts S) (L : k.Laws) (hp : HalfPi k) :
+    baseMatrix k .RY (Ang.piQuarter (-2)) = ⟨k.rsqrt2, k.rsqrt2, -k.rsqrt2, k.rsqrt2⟩ := by
+  have hc := cos_half_pi k L hp
+  have hm := misin_half_pi k L hp
+  rw [neg_quarter]
+  apply M2.ext' <;> simp only [baseMatrix, Consts.sinH, L.cos_neg, L.misin_neg, hc, hm] <;>
+    first | ring1 | linear_combination (-k.rsqrt2) * L.i_sq | linear_combination k.rsqrt2 * L.i_sq
+
+theorem rx_half_pi (k : Consts S) (L : k.Laws) (hp : HalfPi k) :
+    baseMatrix k .RX (Ang.piQuarter 2) = ⟨k.rsqrt2, -(k.i * k.rsqrt2), -(k.i * k.rsqrt2), k.rsqrt2⟩ := by
+  apply M2.ext' <;> simp only [baseMatrix, cos_half_pi k L hp, misin_half_pi k L hp]
+
+/-- the rotations `measurement_basis_gates` emits: X ↦ RY(−π/2), Y ↦ RX(π/2), Z ↦ nothing -/
+def docRot (k : Consts S) : Pauli → M2 S
+  | .X => baseMatrix k .RY (Ang.piQuarter (-2))
+  | .Y => baseMatrix k .RX (Ang.piQuarter 2)
+  | .Z => M2.one
+
+/-- each of them rotates Z into its letter: B†·Z·B = P -/
+theorem docRot_ok (k : Consts S) (L : k.Laws) (T : k.StarLaws) (hp : HalfPi k) : RotOk k (docRot k) := by
+  intro p
+  cases p
+  · simp only [docRot, ry_minus_half_pi k L hp, pauliMat]
+    apply M2.ext' <;> simp only [M2.adj, M2.mul, baseMatrix, star_neg, T.star_rsqrt2] <;>
+      first | ring1 | linear_combination L.rsqrt2_sq
+  · simp only [docRot, rx_half_pi k L hp, pauliMat]
+    apply M2.ext' <;> simp only [M2.adj, M2.mul, baseMatrix, star_neg, star_mul', T.star_rsqrt2, T.star_i] <;>
+      first
+        | ring1
+        | linear_combination (k.rsqrt2 * k.rsqrt2) * L.i_sq
+        | linear_combination (-(k.rsqrt2 * k.rsqrt2)) * L.i_sq
+        | linear_combination (-k.i) * L.rsqrt2_sq
+        | linear_combination k.i * L.rsqrt2_sq
+  · simp only [docRot, pauliMat]
+    apply M2.ext' <;> simp [M2.adj, M2.mul, baseMatrix, M2.one]
+
+/-- **both routes agree**: for every register size `n`, every Pauli word with distinct qubits inside the
+    register and every state ψ, the parity rule applied to the exact outcome probabilities of the state rotated
+    into the measurement basis equals the overlap ⟨ψ|P|ψ⟩ of the statevector route -/
+theorem freq_route_eq_overlap (k : Consts S) (L : k.Laws) (T : k.StarLaws) (hp : HalfPi k) (n : Nat)
+    (w : PWord) (hnd : (w.map (·.1)).Nodup) (hlt : ∀ qp ∈ w, qp.1 < n) (ψ : State S) :
+    ∑ i ∈ range (2 ^ n), paritySign (R := S) w (bitsOf i) * wt (wordOps (docRot k) w ψ (bitsOf i))
+      = inner n ψ (wordOps (pauliMat k) w ψ) :=
+  parity_rule_eq_overlap k L n (docRot k) (docRot_ok k L T hp) w hnd hlt ψ
+
+/-- linearity: the same for a whole operator Σ c_w P_w -/
+theorem freq_route_operator (k : Consts S) (L : k.Laws) (T : k.StarLaws) (hp : HalfPi k) (n : Nat)
+    (terms : List (PWord × S)) (hnd : ∀ t ∈ terms, (t.1.map (·.1)).Nodup) (hlt : ∀ t ∈ terms, ∀ qp ∈ t.1, qp.1 < n) (ψ : State S) :
+    (terms.map (fun t => t.2 * ∑ i ∈ range (2 ^ n), paritySign (R := S) t.1 (bitsOf i) * wt (wordOps (docRot k) t.1 ψ (bitsOf i)))).sum
+      = (terms.map (fun t => t.2 * inner n ψ (wordOps (pauliMat k) t.1 ψ))).sum := by
+  apply congrArg
+  apply List.map_congr_left
+  intro t ht
+  rw [freq_route_eq_overlap k L T hp n t.1 (hnd t ht) (hlt t ht) ψ]
+
+end routes
+
+/-- e(π/2) = (1+i)/√2 for the executable constants -/
+theorem halfPi_exec : HalfPi cycConsts := by
+  unfold HalfPi
+  show Ang.e (Ang.piQuarter 2) = (1 + Cyc.I) * Cyc.rsqrt2
+  rw [Ang.e_unfold]
+  show Cyc.zetaPow 2 * Ang.ptPow _ _ 0 * Ang.ptPow _ _ 0 * Ang.ptPow _ _ 0 * Ang.ptPow _ _ 0 * Ang.ptPow _ _ 0 * Ang.ptPow _ _ 0 = _
+  simp only [Ang.ptPow_zero, mul_one]
+  ext <;> simp [Cyc.zetaPow, Cyc.zetaPowNat, Cyc.I, Cyc.rsqrt2, Cyc.mul] <;> norm_num
+
+/-- both routes agree on the amplitudes the model driver computes -/
+theorem freq_route_eq_overlap_exec (n : Nat) (w : PWord) (hnd : (w.map (·.1)).Nodup) (hlt : ∀ qp ∈ w, qp.1 < n) (ψ : State Cyc) :
+    ∑ i ∈ Finset.range (2 ^ n), paritySign (R := Cyc) w (bitsOf i) * wt (wordOps (docRot cycConsts) w ψ (bitsOf i))
+      = inner n ψ (wordOps (pauliMat cycConsts) w ψ) :=
+  freq_route_eq_overlap cycConsts cycConsts_laws cycConsts_starLaws halfPi_exec n w hnd hlt ψ
+
+/-- the measurement-basis table regenerated from /repo is the one `docRot` formalises -/
+theorem table_is_documented : Tables.measBasis = [("X", "RY", -2), ("Y", "RX", 2)] := by decide
 
 /-! ## non-vacuity -/
 example : (([(false, 3/4), (true, 1/4)] : List (Bool × ℚ)).map (·.2)).sum = 1 := by norm_num
